@@ -120,6 +120,14 @@ def step : List String → String
     (match parseImg 64 toks with
      | some (i, []) => resLine (fun (j : Img) => s!"{j.offset} " ++ ",".intercalate (j.children.map (fun c => toString c.offset)) ++ s!" {j.len}") i.updateOffsets
      | _ => "bad-op")
+  -- `node.size = n` for the node at <path|-> : ok:<len of the root> <len of the node> <validate> <export>
+  | "setsize" :: pth :: n :: toks =>
+    (match (if pth == "-" then some [] else (pth.splitOn ",").mapM (·.toNat?)), parseNat n, parseImg 64 toks with
+     | some path, some n, some (i, []) =>
+       let j := mapAt path (fun x => x.setSize n) i
+       let nl := match atPath path j with | some d => toString d.len | none => "?"
+       s!"ok:{j.len} {nl} {vres j.validate} " ++ (match j.export with | .ok b => (if b.isEmpty then "-" else toHex b) | .error e => e.tag)
+     | _, _, _ => "bad-op")
   | "save_ihex" :: e :: toks => saveText Img.saveIhex e toks
   | "save_srec" :: e :: toks => saveText Img.saveSrec e toks
   | _ => "bad-op"
